@@ -220,6 +220,14 @@ func runCancelCase(c CancelCase) (ev CancelEv) {
 			}
 		}
 		switch c.Point {
+		case "blockedFirstRecv":
+			if md.IsStreamingClient() { // the client has sent nothing yet: the very first Recv blocks
+				position()
+				m := dynamicpb.NewMessage(reqDesc())
+				err := ss.RecvMsg(m)
+				released <- err
+				return err
+			}
 		case "blockedRecv":
 			if md.IsStreamingClient() {
 				m := dynamicpb.NewMessage(reqDesc())
@@ -311,9 +319,11 @@ func runCancelCase(c CancelCase) (ev CancelEv) {
 			ev.Crash = "stream: " + err.Error()
 			return
 		}
-		if err := cs.SendMsg(reqMsg(c.ID, 1, 3)); err != nil {
-			ev.Crash = "send: " + err.Error()
-			return
+		if c.Point != "blockedFirstRecv" {
+			if err := cs.SendMsg(reqMsg(c.ID, 1, 3)); err != nil {
+				ev.Crash = "send: " + err.Error()
+				return
+			}
 		}
 		if c.Shape == "unary" || c.Shape == "sstream" {
 			cs.CloseSend()
@@ -338,7 +348,9 @@ func runCancelCase(c CancelCase) (ev CancelEv) {
 		// chunked body that never finishes for client streams; complete body otherwise
 		var req bytes.Buffer
 		fmt.Fprintf(&req, "POST %s HTTP/1.1\r\nHost: verif.test\r\nContent-Type: %s\r\n", target, ct)
-		if c.Shape == "cstream" || c.Shape == "bidi" {
+		if (c.Shape == "cstream" || c.Shape == "bidi") && c.Point == "blockedFirstRecv" {
+			fmt.Fprintf(&req, "Transfer-Encoding: chunked\r\n\r\n") // headers only: no message yet
+		} else if c.Shape == "cstream" || c.Shape == "bidi" {
 			fmt.Fprintf(&req, "Transfer-Encoding: chunked\r\n\r\n%x\r\n", len(body))
 			req.Write(body)
 			req.WriteString("\r\n")
@@ -370,7 +382,7 @@ func runCancelCase(c CancelCase) (ev CancelEv) {
 	case <-time.After(8 * time.Second):
 		ev.Reached = false
 	}
-	if c.Point == "blockedRecv" && !(c.Shape == "cstream" || c.Shape == "bidi") {
+	if (c.Point == "blockedRecv" || c.Point == "blockedFirstRecv") && !(c.Shape == "cstream" || c.Shape == "bidi") {
 		ev.Reached = false
 	}
 	if c.Point == "blockedSend" && !(c.Shape == "sstream" || c.Shape == "bidi") {
@@ -388,7 +400,7 @@ func runCancelCase(c CancelCase) (ev CancelEv) {
 		ev.CtxDone = true
 	case <-time.After(cancelWait):
 	}
-	if c.Point == "blockedRecv" || c.Point == "blockedSend" {
+	if c.Point == "blockedRecv" || c.Point == "blockedSend" || c.Point == "blockedFirstRecv" {
 		select {
 		case err := <-released:
 			ev.Released = true
